@@ -247,6 +247,7 @@ def handle (j : Json) : R Json := do
       ("silent", bad (silentMon.firstBad silentMon.init 0 tr)),
       ("snapshot", bad ((snapMon su.cfg su.cache).firstBad (snapMon su.cfg su.cache).init 0 tr)),
       ("noloss", bad ((lossMon su.cfg).firstBad (lossMon su.cfg).init 0 tr)),
+      ("exported", bad ((tr.zipIdx.find? (fun x => !exportedOk su.cfg x.1)).map (·.2))),
       ("quiet", Json.bool (quietB tr)),
       ("quiescent", match q with | some (c, m, p) => jarr [jnat c, nameJson m.val, nameJson p] | none => Json.null),
       ("cache", jarr (su.items.map (fun x => jarr [nameJson x.1.val, nameJson x.2, entryJson (cacheAfter su.cache tr x.1 x.2)])))]
